@@ -22,6 +22,12 @@ Session 3, strengthening (cstate.py, h_cstate.c): the compressor OBJECTS are fun
 configurations covering every option that selects a code path, one object fed every block after every other block, continued on
 sqfs_copy copies, exact comparison with a fresh object per block, both directions; tool sweep with non-default -X option sets of
 every compressor over -j/-Q/delay against the NO_THREAD_IMPL -j 1 image.  Both run in a background thread beside the other legs.
+Session 3, strengthening (fdstate.py, seed C02-7): the INHERITED DESCRIPTOR STATE as part of the environment - tar2sqfs with standard
+input as a pipe / socketpair / FIFO, blocking (the writer stalls inside a header, at header boundaries, inside file data and goes on when
+the reader has drained the channel) and with O_NONBLOCK on the inherited open file description (everything up to the stall place is in
+the channel before exec, the writer holds until the tool has exited), stdout / stderr closed / O_APPEND / a full non-blocking pipe, the
+image written through /dev/fd/N of an O_APPEND|O_NONBLOCK descriptor: the reference image, or - non-blocking input only - a loud
+failure (non-zero status, diagnostic, no output file); status 0 with another image is the violation.
 Thorough: more of everything + a ThreadSanitizer build."""
 import hashlib
 import io
@@ -45,6 +51,7 @@ HERE = os.path.dirname(os.path.abspath(__file__))
 sys.path.insert(0, HERE)
 import gen  # noqa: E402
 import cstate  # noqa: E402
+import fdstate  # noqa: E402
 
 LEVEL = "proof"
 SHIM_H = os.path.join(B.VERIF, "props", "C09", "shim_sched.h")
@@ -440,7 +447,7 @@ def _blob(rnd, n, kind):
     return rnd.randbytes(n)
 
 
-def make_input(rnd, root, idx):
+def make_input(rnd, root, idx, force_mode=None):
     """one tool-level input: a file tree on disk + a way to pack it.  -> dict"""
     d = os.path.join(root, "in%03d" % idx)
     os.makedirs(d)
@@ -479,6 +486,7 @@ def make_input(rnd, root, idx):
         os.utime(os.path.join(tree, sub), (1400000000, 1400000000))
     comp = rnd.choice(["gzip", "gzip", "xz", "lz4", "zstd", "lzma"])
     mode = rnd.choice(["packfile", "packfile", "packdir", "packdir-k", "tar", "tar"])
+    mode = force_mode or mode
     spec = dict(idx=idx, dir=d, mode=mode, comp=comp, nfiles=nfiles, bytes=sum(len(b) for b in blobs), extra=[])
     if rnd.random() < 0.3:
         spec["extra"] += ["-d", "mtime=%d,uid=%d" % (rnd.randint(0, 2000000000), rnd.randint(0, 2000))]
@@ -963,6 +971,152 @@ def tsan_run(ctx, bl):
 
 
 # ----------------------------------------------------------------------------------------------
+# search oracle (b'): inherited descriptor state of tar2sqfs (fdstate.py)
+# ----------------------------------------------------------------------------------------------
+def fd_state_plan(rnd, table, i, thorough):
+    """the runs of one archive: (stdin kind, stall place, cuts).  Non-blocking kinds stall once (the unchanged tool dies there),
+    blocking kinds at a header middle, every k-th header boundary and a data middle."""
+    so = fdstate.stall_offsets(table, rnd)
+    plan = []
+    nbk = fdstate.STDIN_NB
+    wheres = ["first", "middle", "last", "random"]
+    # every non-blocking kind at a header boundary (first / middle / last member in turn), inside a header and inside data
+    for j, kind in enumerate(nbk):
+        c = fdstate.pick(so["b"], rnd, wheres[(i + j) % 3])
+        if c is not None:
+            plan.append((kind, "b", [c]))
+    for j, place in enumerate("ac"):
+        for kind in nbk:
+            c = fdstate.pick(so[place], rnd, wheres[(i + j + (kind != "nbpipe")) % 4])
+            if c is not None:
+                plan.append((kind, place, [c]))
+    if thorough:
+        for kind in nbk:
+            c = fdstate.pick(so["b"], rnd, "random")
+            if c is not None:
+                plan.append((kind, "b", [c]))
+    plan.append(("nbpipe-all", "-", []))
+    multi = sorted(set(so["a"][:1] + so["b"][::max(1, len(so["b"]) // 4)] + so["c"][-1:] +
+                       ([fdstate.pick(so["b"], rnd, "random")] if so["b"] else [])))
+    for kind in fdstate.STDIN_BLOCKING:
+        plan.append((kind, "abc", multi))
+    return plan
+
+
+def fd_state_leg(ctx, bl, replay=None):
+    """-> list of bad runs (reported here)"""
+    thorough = ctx.tier != "quick"
+    root = os.path.join(ctx.scratch, "fdstate")
+    os.makedirs(root, exist_ok=True)
+    if replay:
+        seed, idxs = replay["input_seed"], [replay["input_idx"]]
+    else:
+        seed = ctx.seed * 7561 + 5
+        idxs = list(range(10 if not thorough else 40))
+    env = dict(os.environ)
+    for k in ("TZ", "LC_ALL", "LANG", "SOURCE_DATE_EPOCH", "LD_PRELOAD"):
+        env.pop(k, None)
+    jobs_list = []
+    inputs = {}
+    for i in idxs:
+        rnd = random.Random(seed * 1000 + i)
+        spec = make_input(rnd, root, i, force_mode="tar")
+        ref = run_tool(bl, "serial", spec, os.path.join(spec["dir"], "ref.sqfs"), jobs=1)
+        table = fdstate.member_table(spec["stdin"])
+        inputs[i] = (spec, ref, table)
+        if ref["rc"] != 0:
+            continue
+        if replay:
+            plan = [(replay["run"]["stdin"], replay["run"]["place"], replay["run"]["cuts"])] * 3
+        else:
+            plan = fd_state_plan(rnd, table, i, thorough)
+        for j, (kind, place, cuts) in enumerate(plan):
+            out_state = replay["run"]["out_state"] if replay else fdstate.OUT_STATES[(i + j) % len(fdstate.OUT_STATES)]
+            nj = replay["run"]["jobs"] if replay else rnd.choice([1, 2, 3, 16])
+            jobs_list.append((i, j, kind, place, cuts, out_state, nj))
+
+    def go(t):
+        i, j, kind, place, cuts, out_state, nj = t
+        spec = inputs[i][0]
+        opts = ["-q", "-f", "-c", spec["comp"], "-b", str(BS)] + spec["extra"] + spec["args"] + ["-j", str(nj)]
+        return fdstate.run_one(bl["plain"]["tools"]["tar2sqfs"], opts, spec["stdin"], spec["dir"], "%d.%d" % (i, j), kind, cuts,
+                               out_state, env)
+
+    with ThreadPoolExecutor(max_workers=6) as ex:
+        results = list(ex.map(go, jobs_list))
+    stats = dict(archives=len(inputs), runs=0, not_applicable=0, nonblocking_runs=0, nonblocking_failed_loudly=0,
+                 nonblocking_gave_reference=0, blocking_runs=0, stalls_reader_drained=0, stalls_held_until_exit=0,
+                 nonblocking_stall_place_prefilled=0,
+                 by_stdin={}, by_output={}, by_place={}, bad=0)
+    bad = []
+    for t, r in zip(jobs_list, results):
+        i, j, kind, place, cuts, out_state, nj = t
+        spec, ref, table = inputs[i]
+        if r is None:
+            stats["not_applicable"] += 1
+            continue
+        stats["runs"] += 1
+        stats["by_stdin"][kind] = stats["by_stdin"].get(kind, 0) + 1
+        stats["by_output"][out_state] = stats["by_output"].get(out_state, 0) + 1
+        stats["by_place"][place] = stats["by_place"].get(place, 0) + 1
+        stats["stalls_reader_drained"] += r["drained"]
+        stats["stalls_held_until_exit"] += r["held"]
+        if kind.startswith("nb"):
+            stats["nonblocking_runs"] += 1
+            stats["nonblocking_stall_place_prefilled"] += 1 if cuts and r.get("prefilled") == cuts[0] else 0
+            if cuts and not r["held"] and len(stats.setdefault("nonblocking_not_held_until_exit", [])) < 6:
+                stats["nonblocking_not_held_until_exit"].append([kind, place, out_state, r["rc"], r["drained"], cuts[0], r.get("prefilled"), (r["err"] or "")[-80:]])
+            stats["nonblocking_failed_loudly"] += 1 if r["rc"] not in (0, 124) else 0
+            stats["nonblocking_gave_reference"] += 1 if r["rc"] == 0 and r["sha"] == ref["sha"] else 0
+        else:
+            stats["blocking_runs"] += 1
+        v = fdstate.judge(ref["sha"], r)
+        if v:
+            bad.append((t, r, v))
+    for i, (spec, ref, table) in inputs.items():
+        if ref["rc"] != 0:
+            bad.append(((i, 0, "file", "-", [], "normal", 1), dict(ref, kind="file", cuts=[], out_state="normal", drained=0, held=0),
+                        ("reference-failed", "fails on the archive read from a regular file: %s" % ref["err"][-200:])))
+    stats["bad"] = len(bad)
+    ctx.coverage["fd_state"] = stats
+    ctx.coverage["evaluations"] += stats["runs"]
+    seen = set()
+    for t, r, (what, text) in bad:
+        i, j, kind, place, cuts, out_state, nj = t
+        spec, ref, table = inputs[i]
+        sig = "fd-state:%s:tar2sqfs:%s:%s" % (what, kind, place)
+        if (what, place) in seen or len(seen) >= 4:      # one report per (outcome, stall place)
+            continue
+        seen.add((what, place))
+        names = [m.name for m in tarfile.open(spec["stdin"], "r:")]
+        at = []
+        for c in cuts:
+            k = max((x for x in range(len(table)) if table[x][0] <= c), default=0)
+            at.append("offset %d = %s of member %d/%d '%s'" % (
+                c, "the first byte of the header" if c == table[k][0] else
+                ("byte %d of the header" % (c - table[k][0])) if c < table[k][1] else ("byte %d of the %d data bytes" % (c - table[k][1], table[k][2])),
+                k + 1, len(table), names[k] if k < len(names) else "?"))
+        ctx.violation(sig, "tar2sqfs -c %s -j %d %s, archive of %d members (%d bytes) on standard input = %s%s, the writer pausing at %s "
+                      "until the reader has taken everything written so far%s; stdout / stderr: %s.  The tool %s.  Reference (same archive "
+                      "from a regular file, serial build): sha256 %s"
+                      % (spec["comp"], nj, " ".join(spec["extra"]), len(table), os.path.getsize(spec["stdin"]), kind,
+                         " (O_NONBLOCK set on the inherited open file description)" if kind.startswith("nb") else "",
+                         "; ".join(at) or "no place (all data in the pipe, write end closed before exec)",
+                         " and then until the tool has exited" if kind.startswith("nb") and cuts else "", out_state, text, ref["sha"][:16]),
+                      dict(kind="fdstate", input_seed=seed, input_idx=i, comp=spec["comp"],
+                           run=dict(stdin=kind, place=place, cuts=cuts, out_state=out_state, jobs=nj),
+                           members=[dict(name=n, header_offset=h, data_offset=d, size=sz) for n, (h, d, sz) in zip(names, table)][:50],
+                           reference=dict(cmd=ref["cmd"], sha256=ref["sha"]),
+                           differing=dict(cmd=r.get("cmd"), rc=r["rc"], sha256=r.get("sha"), stderr=r.get("err"),
+                                          reader_drained_at_stalls=r.get("drained"), held_until_exit=r.get("held"),
+                                          output_file_left=r.get("left")),
+                           how="props/C02/fdstate.py run_one: write archive[:cut] to the write end of the channel whose read end (with "
+                               "O_NONBLOCK for the nb kinds) is the tool's standard input, poll FIONREAD / SIOCOUTQ until 0, for nb kinds "
+                               "wait for the tool to exit, then write the rest"))
+    return bad
+
+
+# ----------------------------------------------------------------------------------------------
 # compressor objects are functions of (configuration, block): component oracle + tool sweep with -X option sets
 # ----------------------------------------------------------------------------------------------
 def compressor_legs(ctx, bl, only=None, replay=None):
@@ -1017,6 +1171,8 @@ def run(ctx):
         "props/C09/shim_sched.{h,c}: cooperative scheduler replacing pthreads in threadpool.c (component leg 'sched')",
         "props/C02/shim_clock.c, shim_delay.c (LD_PRELOAD), sha256 of the tool output, ASan verdict on the harness",
         "props/C02/gen.py and the input generators of check.py",
+        "props/C02/fdstate.py (channels, feeder synchronised by FIONREAD / SIOCOUTQ, output descriptor states; Python tarfile for the "
+        "member offsets at which the feeder stalls)",
         "props/C02/h_cstate.c (script interpreter over sqfs_compressor_create / sqfs_copy / do_block, memcmp against the stored "
         "output of a fresh object) and props/C02/cstate.py (blocks, configurations, sequences)",
     ]
@@ -1050,6 +1206,9 @@ def run(ctx):
             return
         if kind == "tool":
             tool_sweep(ctx, bl)
+            return
+        if kind == "fdstate":
+            fd_state_leg(ctx, bl, replay=json.load(open(ctx.replay)))
             return
         if kind == "env":
             tie_env(ctx, bl, drv)
@@ -1088,6 +1247,9 @@ def _run_main(ctx, bl, drv, drv_img, bg):
     ctx.log("layout tie: %s" % json.dumps(ctx.coverage.get("layout", {}))[:200])
     bad = tool_sweep(ctx, bl, short=bool(impl_disagree))
     ctx.log("tool sweep: %s" % json.dumps(ctx.coverage.get("tool_sweep", {}))[:300])
+    t_fd = time.time()
+    bad = bad + fd_state_leg(ctx, bl)
+    ctx.log("descriptor state (tar2sqfs): %s, %.1fs" % (json.dumps(ctx.coverage.get("fd_state", {})), time.time() - t_fd))
     report_compressor_legs(ctx, bg_fut.result())
     broken = bool(tie_bad) or bool(ctx.proof_broken) or bool(ino_bad) or bool(lay_bad)
     if broken and not bad and not impl_disagree and ctx.tier == "quick":
